@@ -136,7 +136,17 @@ fn tag(t: &mut Tape, style: usize, salt: usize) -> String {
 fn gen_scenario(t: &mut Tape, borrowed: bool) -> Scenario {
     let via_proxy = t.draw(5) == 4;
     let size_style = t.draw(4);
-    let n = if via_proxy { 1 } else { 1 + t.draw(6) };
+    // scale swarm: one chain in sixteen is long (up to 150 calls: beyond any 8/16/32/64-entry
+    // table or bitmask), and one in sixteen has `more` calls with dozens of continuing replies
+    let scale = t.draw(16);
+    let n = if via_proxy {
+        1
+    } else if scale == 15 {
+        20 + t.draw(131)
+    } else {
+        1 + t.draw(6)
+    };
+    let max_cont = if scale == 14 { 70 } else { 4 };
     let mut calls = Vec::new();
     let mut owed = Vec::new();
     let mut salt = 0usize;
@@ -163,7 +173,7 @@ fn gen_scenario(t: &mut Tape, borrowed: bool) -> Scenario {
             CallKind::Oneway => {}
             CallKind::Plain => final_reply(t, &mut owed, &mut salt),
             CallKind::More => {
-                let k = t.draw(4);
+                let k = t.draw(max_cont);
                 for _ in 0..k {
                     salt += 1;
                     owed.push(Owed { error: false, unit_error: false, num: i as i64, text: tag(t, size_style, salt), continues: Some(true) });
@@ -564,7 +574,7 @@ impl Prop for ChainProp {
         if self.borrowed {
             "Each execution = one chain (or proxy streaming call) whose reply and error types borrow &str from the connection's receive buffer, a scripted conforming server, reply sizes that stay inside the initial 256 bytes / force one growth step / several, and one delivery schedule (one read for all, one read per reply, random pieces, short reads). The harness keeps every yielded item, and after each further item and at the end re-reads all held strings. The read seam reports the end address of the buffer it is handed: if it changed since an item was yielded the item is reported without being dereferenced. Non-trivial = a partial delivery / short read happened; distinct = distinct event-sequence hash.".into()
         } else {
-            "Each execution = one chain of 1..6 calls over {plain, oneway, more} (or one proxy #[zlink(more)] call), a scripted conforming server (success, declared error, unit error, k<=3 continuing replies then final reply or error), 0..2 frames of a later exchange behind the owed replies, and one delivery schedule. Systematic part: every chain of up to 3 (quick) / 4 (thorough) calls x 4 reply styles per call x {one read, frame by frame, byte by byte}. Oracle: one write with the calls in order and right flags; items = owed replies in order; stream ends without needing another transport read (quiescence with the stream still pending = blocked on an unowed reply); later frames intact for an ordinary receive. Non-trivial = a partial delivery, short read, stall or spurious poll happened.".into()
+            "Each execution = one chain of 1..6 calls (one in sixteen: 20..150 calls; one in sixteen: `more` calls with up to 69 continuing replies) over {plain, oneway, more} (or one proxy #[zlink(more)] call), a scripted conforming server (success, declared error, unit error, k<=3 continuing replies then final reply or error), 0..2 frames of a later exchange behind the owed replies, and one delivery schedule. Systematic part: every chain of up to 3 (quick) / 4 (thorough) calls x 4 reply styles per call x {one read, frame by frame, byte by byte}. Oracle: one write with the calls in order and right flags; items = owed replies in order; stream ends without needing another transport read (quiescence with the stream still pending = blocked on an unowed reply); later frames intact for an ordinary receive. Non-trivial = a partial delivery, short read, stall or spurious poll happened.".into()
         }
     }
 
